@@ -343,7 +343,9 @@ def one(rp, sb, p, case, uid):
     launcher = execlib.make_launcher(rp, sb, case['ranks'])
     if case.get('named_env'):
         case['_named_path'] = '%s/env/rp_named_env.%s.%s.sh' % (sb.psbox, case['named_env'], launcher.name.lower())
-    p._session.rcfg['task_pre_exec'] = ['export PLATFORM_PRE=1'] if case['platform'] else None
+    # (the platform's list is ONE object of the resource configuration, handed out for every task of the executor)
+    if not hasattr(sb, 'platform_pre'): sb.platform_pre = ['export PLATFORM_PRE=1']
+    p._session.rcfg['task_pre_exec'] = sb.platform_pre if case['platform'] else None
     extra = {'PROBE_EXIT_%d' % r: str(c) for r, c in enumerate(case['exe_codes'])}
     if case.get('outer'):
         # the executor itself runs inside a rank of a task of another RP instance (a sub-agent, nested pilots): its
@@ -386,6 +388,10 @@ def run(ctx):
             ctx.case({'case': case}, nontrivial=bool(res['ranks']))
             for sig, what in monitor(sb, case, task, res, pwd):
                 ctx.fail(sig, what, {'case': case}, observed={'rc': res['rc'], 'log': res['log'], 'launch_out': (res['launch_out'] or '')[-400:]})
+            if getattr(sb, 'platform_pre', None) not in (None, ['export PLATFORM_PRE=1']):
+                ctx.fail('exec:a-task-changed-the-platform-configuration', 'task_pre_exec of the resource configuration is %s after task %s'
+                         % (sb.platform_pre[:6], uid), {'case': case, 'platform_twice': True})
+                sb.platform_pre = ['export PLATFORM_PRE=1']
             shutil.rmtree(task['task_sandbox_path'], ignore_errors=True)
         # bash against the tokeniser on lines of the fragment (not produced by radical.pilot: bash is the implementation here)
         import subprocess as sp
@@ -505,6 +511,12 @@ def replay(ctx, data):
         task, launcher, res = one(rp, sb, p, case, 'task.000000')
         bad = monitor(sb, case, task, res, p._pwd)
         print('rc', res['rc'], 'log', res['log']); print((res['launch_out'] or '')[-500:]); print(bad)
+        if data['input'].get('platform_twice'):
+            # the same task once more on the same executor: the platform's list is as it was, the task runs what it ran
+            print('platform list after the task:', getattr(sb, 'platform_pre', None))
+            if getattr(sb, 'platform_pre', None) not in (None, ['export PLATFORM_PRE=1']): return False
+            task2, launcher2, res2 = one(rp, sb, p, dict(case), 'task.000001')
+            bad = bad or monitor(sb, case, task2, res2, p._pwd)
         return not bad
     finally:
         shutil.rmtree(root, ignore_errors=True)
